@@ -180,16 +180,30 @@ def check(tier):
         ok = len(last_else) == 1 and src(last_else[0]).startswith('cif.validate(') and any('dni.validate(' in src(c) for c in chain) and any('nie.validate(' in src(c) for c in chain)
     rep.check(ok, 'C09.shape', 'stdnum/es/nif.py', 'validate', src(top[-1].test) if top else 'dispatch', v.lineno,
               'es.nif.validate() does not send every number that is neither K/L/M, digit-led nor X/Y/Z to cif.validate() (and the others to dni/nie)')
-    # eu.vat: prefix re-attached; guess_country filters MEMBER_STATES with is_valid(number)
+    # eu.vat: the member-state result with the prefix re-attached is decided on the abstract results (C09.accepts / prefix, above);
+    # here only that validate() (or a private helper it calls) dispatches through _get_cc_module and calls the module's validate()
     v = fn_of('stdnum.eu.vat', 'validate')
-    txt = ' ; '.join(src(s) for s in strip_doc(v.body))
-    rep.check('number = module.validate(number)' in txt and 'if not number.startswith(cc): number = cc + number' in txt and 'if not module: raise InvalidComponent()' in txt,
-              'C09.shape', 'stdnum/eu/vat.py', 'validate', txt[:160], v.lineno, 'eu.vat.validate() does not return the member-state result with the prefix re-attached')
+    reach_fns = [v] + [f for n_, f in prog.mods['stdnum.eu.vat'].funcs.items() if n_.startswith('_')
+                       and any(isinstance(c, ast.Call) and src(c.func) == n_ for c in ast.walk(v))]
+    calls = [c for f in reach_fns for c in ast.walk(f) if isinstance(c, ast.Call)]
+    has_dispatch = any(src(c.func) == '_get_cc_module' for c in calls)
+    has_validate = any(isinstance(c.func, ast.Attribute) and c.func.attr == 'validate' and isinstance(c.func.value, ast.Name) for c in calls)
+    rep.check(has_dispatch and has_validate, 'C09.shape', 'stdnum/eu/vat.py', 'validate', 'dispatch through _get_cc_module(...).validate(...)', v.lineno,
+              'eu.vat.validate() no longer selects the member-state module with _get_cc_module() and calls its validate()')
+    # guess_country: every is_valid() it consults gets the argument itself, for the modules of MEMBER_STATES
     g = fn_of('stdnum.eu.vat', 'guess_country')
-    gb = strip_doc(g.body)
-    ok = len(gb) == 1 and isinstance(gb[0], ast.Return) and match_expr('[V_c for V_c in MEMBER_STATES if _get_cc_module(V_c).is_valid(%s)]' % g.args.args[0].arg, gb[0].value) is not None
-    rep.check(ok, 'C09.shape', 'stdnum/eu/vat.py', 'guess_country', src(gb[-1])[:140], g.lineno,
-              'guess_country() does not list exactly the member states whose is_valid() accepts the argument itself')
+    gp = g.args.args[0].arg
+    iv = [c for c in ast.walk(g) if isinstance(c, ast.Call) and isinstance(c.func, ast.Attribute) and c.func.attr in ('is_valid', 'validate')]
+    bad_arg = [c for c in iv if not (len(c.args) == 1 and isinstance(c.args[0], ast.Name) and c.args[0].id == gp and not c.keywords)]
+    own = [c for c in ast.walk(g) if isinstance(c, ast.Call) and isinstance(c.func, ast.Name) and c.func.id in ('is_valid', 'validate')]
+    over_members = any(isinstance(n, ast.Name) and n.id == 'MEMBER_STATES' for n in ast.walk(g))
+    if not iv and not own:
+        rep.undecide('C09.shape', 'stdnum/eu/vat.py guess_country', 'guess_country() consults no is_valid()/validate() the rule recognises')
+    else:
+        rep.check(not bad_arg and not own and over_members, 'C09.shape', 'stdnum/eu/vat.py', 'guess_country', src((bad_arg or own or iv)[0])[:140], g.lineno,
+                  'guess_country() does not list exactly the member states whose own is_valid() accepts the argument itself (%s)'
+                  % ('it asks the aggregate validator of this module' if own else 'the argument is altered before it is handed to the member-state module'
+                     if bad_arg else 'it does not run over MEMBER_STATES'))
     ms = prog.mods['stdnum.eu.vat'].consts.get('MEMBER_STATES')
     rep.check(ms is not None and set(ms) == set(members) | {'xi'}, 'C09.shape', 'stdnum/eu/vat.py', 'MEMBER_STATES', 'MEMBER_STATES', 0,
               'MEMBER_STATES is %s, expected the 27 member states plus xi' % (sorted(ms) if ms else None))
@@ -200,14 +214,23 @@ def check(tier):
         b = strip_doc(v.body)
         num = v.args.args[0].arg
         whole = src(prog.mods[mn].tree)
-        ok = len(b) >= 2 and src(b[0]) == '%s = iban.validate(%s, check_country=False)' % (num, num) and \
-            ("startswith('%s')" % cc.upper()) in whole
-        rep.check(ok, 'C09.shape', rel(prog.mods[mn].path), 'validate', src(b[0])[:100], v.lineno,
-                  'national IBAN validator does not start with iban.validate(number, check_country=False) and a test of its own prefix')
+        gcalls = [c for c in ast.walk(v) if isinstance(c, ast.Call) and src(c.func) == 'iban.validate']
+        generic_ok = any(any(k.arg == 'check_country' and isinstance(k.value, ast.Constant) and k.value.value is False for k in c.keywords)
+                         and c.args and isinstance(c.args[0], ast.Name) and c.args[0].id == num for c in gcalls)
+        ok = generic_ok and ("startswith('%s')" % cc.upper()) in whole
+        rep.check(ok, 'C09.shape', rel(prog.mods[mn].path), 'validate', src(gcalls[0])[:100] if gcalls else 'iban.validate(...)', v.lineno,
+                  'national IBAN validator does not apply iban.validate(number, check_country=False) to its argument and test its own prefix')
     v = fn_of('stdnum.iban', 'validate')
-    txt = ' ; '.join(src(s) for s in strip_doc(v.body))
-    rep.check('if check_country: module = _get_cc_module(number[:2]) if module: module.validate(number)' in txt.replace(' ; ', ' ').replace('\n', ' ').replace('    ', ' ').replace('  ', ' '),
-              'C09.shape', 'stdnum/iban.py', 'validate', txt[-160:], v.lineno, 'iban.validate() does not call the national validator of the number\'s country under check_country')
+    opt = [a.arg for a in v.args.args[1:]]
+    guarded = [i for i in ast.walk(v) if isinstance(i, ast.If) and isinstance(i.test, ast.Name) and i.test.id in opt]
+    okc = False
+    for i in guarded:
+        inner = [c for st in i.body for c in ast.walk(st) if isinstance(c, ast.Call)]
+        if any(src(c.func) == '_get_cc_module' for c in inner) and any(
+                isinstance(c.func, ast.Attribute) and c.func.attr == 'validate' and c.args and isinstance(c.args[0], ast.Name) for c in inner):
+            okc = True
+    rep.check(okc, 'C09.shape', 'stdnum/iban.py', 'validate', 'if check_country: _get_cc_module(...).validate(number)', v.lineno,
+              'iban.validate() does not call the national validator of the number\'s country under check_country')
     rep.expect_at_least('C09.table', 100, 'dispatch table cells')
     rep.expect_at_least('C09.accepts', 60, 'wrapper/constituent relations')
     rep.not_decided = ['the equivalence itself for every string (only: no accepted constituent shape is rejected + results are returned through constituents)',
